@@ -842,6 +842,11 @@ def bind_battery():
     b.append(sc("A Y V\nlet v = 1;\ndeclare V = v;\n0 X X\n", "err", "declare cannot see variables"))
     b.append(sc("A Y\n0 1\n", "err", "duplicate signal names", sigs=[("in", "A", 1, 0), ("out", "Y", 8), ("out", "Y", 4)]))
     b.append(sc("A Y\ndeclare Y = 1;\n0 1\n", "err", "virtual signal named like a real one"))
+    # third round: a declared (virtual) signal is not something an expression can read
+    b.append(sc("A Y V\ndeclare V = Q + 1;\n(V) X X\n", "err", "a row entry reads a declared signal"))
+    b.append(sc("A Y\ndeclare V = Q;\nlet t = V + 1;\n(t) X\n", "err", "a let reads a declared signal"))
+    b.append(sc("A Y V W\ndeclare V = Q;\ndeclare W = V + 1;\n0 X X X\n", "err", "a declaration reads another declared signal"))
+    b.append(sc("A Y\ndeclare V = Q;\nlet V = 2;\n(V) X\n", "ok", "a variable named like a declared signal is a variable"))
     return b
 
 
